@@ -21,7 +21,8 @@ EXTENDS Chain
 
 CONSTANTS TreeIn,      \* the block tree (function id -> block record), fixed for a run
           Threads,     \* set of thread ids
-          Prog         \* [Threads -> Seq([k: "ProcessBlock"|"ProcessHeader", b: id])]
+          Prog,        \* [Threads -> Seq([k: "ProcessBlock"|"ProcessHeader", b: id])]
+          MaxOrphans   \* capacity of the orphan pool (chain.rs MAX_ORPHAN_SIZE = 200)
 
 VARIABLES th,          \* per-thread control state
           results      \* per-thread sequence of finished call results
@@ -106,7 +107,15 @@ StepK(t) == /\ th[t].st = "K"
                IF pb.res = "go" THEN /\ n' = n /\ th' = [th EXCEPT ![t].st = "B"] /\ UNCHANGED results
                ELSE IF pb.res = "orphan" THEN /\ n' = n /\ th' = [th EXCEPT ![t].st = "KA"] /\ UNCHANGED results
                ELSE Finish(t, pb.res, n)
-AddOrphan(nd, b) == [nd EXCEPT !.orph = IF \E i \in 1..Len(@) : @[i] = b THEN @ ELSE Append(@, b)]
+\* OrphanBlockPool::add: insert, and when the pool has grown beyond its capacity drop whole heights,
+\* the farthest ahead first, until it is BELOW the capacity (the block just added may be among them).
+\* (The age limit of 300 s is outside the model: no run lasts that long.)
+TopHeight(sq) == CHOOSE h \in {Height(sq[i]) : i \in 1..Len(sq)} : \A j \in 1..Len(sq) : Height(sq[j]) <= h
+RECURSIVE EvictAhead(_)
+EvictAhead(sq) == LET s2 == RemoveAt(sq, TopHeight(sq)) IN IF Len(s2) < MaxOrphans THEN s2 ELSE EvictAhead(s2)
+PoolAdd(sq, b) == LET a == IF \E i \in 1..Len(sq) : sq[i] = b THEN sq ELSE Append(sq, b)
+                  IN IF Len(a) > MaxOrphans THEN EvictAhead(a) ELSE a
+AddOrphan(nd, b) == [nd EXCEPT !.orph = PoolAdd(@, b)]
 StepKA(t) == /\ th[t].st = "KA"
              /\ LET nd == AddOrphan(n, th[t].b) IN
                 IF Parent(th[t].b) \in nd.bodies
@@ -158,4 +167,6 @@ HeadStored == n.head \in n.bodies /\ n.hhead \in n.hdrs
    would produce.  A sufficient, checkable form: no valid block whose parent body is stored is left
    unprocessed in the orphan pool, and the head has maximal work among stored-ancestor blocks.   *)
 FinalSequential == AllDone => (HeadMaxWork /\ OrphansRetried)
+\* the orphan pool never holds more than its capacity between two steps
+PoolBounded == Len(n.orph) <= MaxOrphans
 =============================================================================
